@@ -76,7 +76,35 @@ def diff_net(impl_net, model_net, what):
     return None
 
 
+def canon_id(x):
+    """identifiers that were never assigned by the scheduler (the uuid4 an API object is created with) are random in
+    the implementation and numbered from 1000000 in the model: both become "uuid4" """
+    if x is None:
+        return None
+    t = str(x)
+    if not t.isdigit() or int(t) >= 1000000:
+        return "uuid4"
+    return t
+
+
+def canon_ids(c):
+    evs = []
+    for e in c["out"]:
+        e = list(e)
+        if e[0] == "INV":
+            e[5], e[6] = canon_id(e[5]), canon_id(e[6])
+        elif e[0] == "VAR":
+            e[2] = canon_id(e[2])
+        elif e[0] in ("FIRE", "RET", "RETFALSE"):
+            e[1] = canon_id(e[1])
+        elif e[0] == "LOG" and len(e) > 4 and e[2] in ("Task", "Service"):
+            e[4] = canon_id(e[4])
+        evs.append(e)
+    return dict(c, out=evs, awaited=[canon_id(i) for i in c["awaited"]])
+
+
 def proj_call(c):
+    c = canon_ids(c)
     return [c["op"]["op"], c["ret"], c["exc"], c["running"], c["awaited"], c.get("start_awaited"),
             [e for e in c["out"] if e[0] != "NET"], len([e for e in c["out"] if e[0] == "NET"]),
             c.get("marking"), c.get("final_marking")]
@@ -123,7 +151,7 @@ def compare_calls(ic, net0, net1, resp, proj=None):
             return "call %d (%s): implementation exc=%r, model exc=%r" % (cut, ic[cut]["op"]["op"], ic[cut]["exc"], mc[cut]["exc"])
         a = [c for c in ic[:cut] if c["op"]["op"] != "witness"]
         b = mc[:cut]
-        pa, pb = proj(sc.rename_ids(a)), proj(sc.rename_ids(b))
+        pa, pb = proj(sc.rename_ids([canon_ids(c) for c in a])), proj(sc.rename_ids([canon_ids(c) for c in b]))
         if pa != pb:
             for i, (x, y) in enumerate(zip(pa, pb)):
                 if x != y:
